@@ -26,6 +26,7 @@ pub struct ChildRec {
 
 pub struct Block {
     pub base: usize,
+    #[allow(dead_code)]
     pub cap: usize,
     pub size: usize,
     pub live: bool,
@@ -194,14 +195,33 @@ macro_rules! logf {
     };
 }
 
+/// Extra strong references every task waker is created with and that are never given
+/// back.  A crate that releases its shared block twice (or uses it after releasing it)
+/// drops the registered task waker more often than it cloned it; with the bias such an
+/// over-release shows up as a negative `twbal` instead of freeing the `Arc` under the
+/// harness' feet.  (The few bytes of each task waker are therefore never freed.)
+pub const TW_BIAS: usize = 256;
+
 /// the task waker `wid`, created on first use
 pub fn task_waker(wid: u32) -> Arc<TaskWaker> {
     g(|g| {
         g.wakers
             .entry(wid)
-            .or_insert_with(|| Arc::new(TaskWaker { id: wid }))
+            .or_insert_with(|| {
+                let a = Arc::new(TaskWaker { id: wid });
+                for _ in 0..TW_BIAS {
+                    std::mem::forget(a.clone());
+                }
+                a
+            })
             .clone()
     })
+}
+
+/// clones of the task waker still alive besides the table's own reference
+/// (negative: dropped more often than cloned)
+pub fn task_waker_balance(a: &Arc<TaskWaker>) -> isize {
+    Arc::strong_count(a) as isize - 1 - TW_BIAS as isize
 }
 
 /// Take `H[h]` out of the table (to call it without holding the lock).
